@@ -37,7 +37,7 @@ Definition c12_block_step_ok (slot : N) (ct : content) (hist : list bstep) (st :
   let upto := hist ++ [st] in
   let evs := all_events_b upto in
   let shs := dissem_shreds upto in
-  let repaired := existsb (fun s => match bs_op' s with BRepair _ _ => true | _ => false end) upto in
+  let repaired := existsb (fun s => match bs_op' s with BRepair _ _ _ => true | _ => false end) upto in
   let own := match own_slices upto with [] => false | _ => true end in
   repaired || own || reveals_equivocation shs
   || match honest_block slot ct shs with
